@@ -11,6 +11,8 @@
 //   Z<n>.<iters>.<seed> t<i>:<op> ...   free-running stress under the race detector: the threads
 //        run their programs concurrently, then (barrier) every thread deletes all its handle
 //        variables concurrently; repeated <iters> times.  Observation: `clean` or what is off.
+//   P<n>.<iters>.<seed>   thread 0 resizes a memory pool with a live reservation <iters> times while
+//        threads 1..n-1 malloc/free on the same device.  Observation: `clean` or what is off.
 //   M1 c<k>     k times { multiRing.addNewRef(e); multiRing.removeRef(e) } on one thread.
 //   ?           capabilities: `R caps hook=<0|1> sharable=<0|1>`
 //
@@ -373,6 +375,61 @@ static std::string run_stress(int iters) {
   return std::string(buf) + kinds_str();
 }
 
+// ---------------------------------------------------------------- memory pool + plain allocations
+// P<n>.<iters>.<seed>: thread 0 creates a pool, keeps one reservation alive and resizes the pool
+// <iters> times (every resize allocates a new buffer, migrates, frees the old one); threads 1..n-1
+// malloc/free on the same device until it is done.  Pools are outside the Coq model: the oracle is
+// memoryAllocated() == 0, balanced counters and no race report.
+static std::atomic<int> g_stop(0);
+
+static void pool_worker(int iters) {
+  t_me = 0;
+  pthread_barrier_wait(&g_bar);
+  {
+    occa::memoryPool pool = g_dev.createMemoryPool();
+    occa::memory hold = pool.reserve<char>(64);
+    for (int it = 0; it < iters; ++it) pool.resize((it & 1) ? 1024 : 4096);
+    hold.free();
+    pool.free();
+  }
+  g_stop = 1;
+}
+
+static void alloc_worker(int t) {
+  t_me = t;
+  std::minstd_rand rng(g_seed * 7919u + (unsigned) t * 104729u + 1u);
+  t_rng = &rng;
+  pthread_barrier_wait(&g_bar);
+  int k = 0;
+  while (!g_stop.load() || k < 8) {
+    occa::memory m = g_dev.malloc(32 + 8 * (k % 4), occa::dtype::byte);
+    m.free();
+    ++k;
+  }
+  t_rng = NULL;
+}
+
+static std::string run_pool(int iters) {
+#ifdef OCCA_VERIF_HAS_YIELD
+  occa::verif::setYield(on_yield);
+#endif
+  if (g_n < 2) g_n = 2;
+  pthread_barrier_init(&g_bar, NULL, g_n);
+  std::vector<std::thread> th;
+  th.emplace_back(pool_worker, iters);
+  for (int t = 1; t < g_n; ++t) th.emplace_back(alloc_worker, t);
+  for (std::thread &x : th) x.join();
+  Counts c = counts();
+  bool clean = (g_reports.load() == 0) && c.bytes == 0;
+#ifdef LIBOCCA_OCCA_VERIF
+  clean = clean && c.cm == c.dm && c.cb == c.db;
+#endif
+  if (clean) return "R clean";
+  char buf[256];
+  snprintf(buf, sizeof buf, "R DIRTY m=%ld/%ld b=%ld/%ld bytes=%lld tsan=%d kinds=", c.cm, c.dm, c.cb, c.db, c.bytes, g_reports.load());
+  return std::string(buf) + kinds_str();
+}
+
 // ---------------------------------------------------------------- multiRing_t
 static std::string run_multi(int calls) {
 #if OCCA_THREAD_SHARABLE_ENABLED
@@ -438,6 +495,7 @@ static std::string run_case(const std::string &line) {
   base_lb = occa::verif::liveCount(occa::verif::clsBuffer); base_db = occa::verif::destroyedCount(occa::verif::clsBuffer);
 #endif
   if (kind == 'X') return run_replay();
+  if (kind == 'P') return run_pool(head_iters > 0 ? head_iters : 100);
   if (kind == 'Z') {
     int iters = head_iters;
     for (const std::string &t : rest) if (t[0] == 'i') iters = atoi(t.c_str() + 1);
